@@ -1,7 +1,25 @@
 """C15 — Melswap settles only genuine requests, at one fair price, pro rata, on the right sides."""
 from rules.engine import mir, q
 from rules.engine.mir import show
-from rules.engine.q import sig, sigv, force
+from rules.engine.q import sigv, force
+from rules.engine.q import sig as _sig0
+
+
+def _N(s_):
+    """the state captured by a closure is called `state` in a free function and `self` in a method: the name of the capture is a spelling"""
+    return s_.replace("^self.", "^state.").replace("(^self)", "(^state)").replace("(^self,", "(^state,").replace(", ^self)", ", ^state)")
+
+
+def sig(e, *a, **k):
+    return _N(_sig0(e, *a, **k))
+
+
+def _cmp_atoms(c, *a, **k):
+    return [(e, _N(cn), bi) for e, cn, bi in q.cmp_atoms(c, *a, **k)]
+
+
+def _pick_atoms(c, want):
+    return [(e, _N(cn), bi) for e, cn, bi in q.pick_atoms(c, lambda cn: want(_N(cn)))]
 from rules.engine.sccp import V, C
 
 EXPLANATION = (
@@ -70,8 +88,8 @@ def r1_selection_atoms(ctx):
         where = "%s:%s" % (c.file, c.line)
         r.check(bool(somes) or bool(finals), name + "/result", "the closure can select", "no Some(tx) result found in %s" % name, where)
         atoms = {}
-        for e0, cn0, bi in q.cmp_atoms(c):
-            for e, cn in q.atom_forms(e0):          # as spelled and negated: `if kind != Swap { return None }` is the atom kind == Swap
+        for e0, cn0, bi in _cmp_atoms(c):
+            for e, cn in [(x_, _N(c_)) for x_, c_ in q.atom_forms(e0)]:          # as spelled and negated: `if kind != Swap { return None }` is the atom kind == Swap
                 atoms.setdefault(cn.replace(KEY, "KEY").replace(KEY2, "KEY"), []).append(e)
         calls = {}
         for bi, e in q.all_call_exprs(c):
@@ -125,7 +143,7 @@ def r2_canonical_keys(ctx):
         e = b.rec_call(t, bi)
         K = ("try", e)
         want = {"Lt(Denom::to_bytes(PoolKey::left(%s)), Denom::to_bytes(PoolKey::right(%s)))" % (sig(K), sig(K))}
-        atoms = [a for a, cn, abi in q.cmp_atoms(b) if cn in want]
+        atoms = [a for a, cn, abi in _pick_atoms(b, lambda cn: cn in want) if cn in want]        # `left < right` required, or `left >= right ⇒ None`
         key = b.nname.replace(MM, "").replace("{closure#", "c").replace("}", "")
         where = b.where(bi)
         if not atoms:
@@ -135,7 +153,7 @@ def r2_canonical_keys(ctx):
             if flt and len(rets) == 1 and rets[0][2] == flt[0][1]:
                 c = prog.body(flt[0][1][2][1][1])
                 CW = "Lt(Denom::to_bytes(PoolKey::left($2)), Denom::to_bytes(PoolKey::right($2)))"
-                catoms = [a for a, cn, abi in q.pick_atoms(c, lambda cn: cn == CW) if cn == CW] if c is not None else []
+                catoms = [a for a, cn, abi in _pick_atoms(c, lambda cn: cn == CW) if cn == CW] if c is not None else []
                 if catoms:
                     v, _ = q.ret_value_under(c, {a: 0 for a in catoms})
                     okf = v == C(0)
@@ -196,7 +214,7 @@ def r3_swaps(ctx):
             return "shape:" + sig(e)[:120]
         mc = ctx.prog.body(e[2][0][2][1][1])
         fc = ctx.prog.body(e[2][2][1])
-        atoms = q.cmp_atoms(mc)
+        atoms = _cmp_atoms(mc)
         # the side test, with captured variables replaced by what the closure captured where it was built (directly `pool`, or a `denom`
         # parameter of a helper that was called with pool.left() / pool.right())
         caps = dict(e[2][0][2][1][2]) if len(e[2][0][2][1]) > 2 else {}
@@ -247,8 +265,8 @@ def r3_swaps(ctx):
     c = fe[0]
     caps = q.closure_captures(b, c.nname)
     SW = sig(q.novers(sm[0][1])) if sm else "?"
-    side_atoms = [a for a in q.cmp_atoms(c) if a[1] == "Eq(%s($2.outputs, 0).denom, PoolKey::left(^pool))" % IDX]
-    r.check(len(side_atoms) == 1, "rewrite/side-test", "branches on denom == pool.left()", "side tests: %s" % [a[1] for a in q.cmp_atoms(c)])
+    side_atoms = [a for a in _cmp_atoms(c) if a[1] == "Eq(%s($2.outputs, 0).denom, PoolKey::left(^pool))" % IDX]
+    r.check(len(side_atoms) == 1, "rewrite/side-test", "branches on denom == pool.left()", "side tests: %s" % [a[1] for a in _cmp_atoms(c)])
     if not side_atoms:
         return
     for is_left in (1, 0):
@@ -335,9 +353,9 @@ def r3_deposits(ctx):
         r.check(got.startswith("CoinMapping::insert_coin(^state.coins, Transaction::output_coinid($2, 0), CoinDataHeight::CoinDataHeight{coin_data: %s($2@" % IDX),
                 "rewrite/coin0", "the liquidity coin replaces output 0 (id of the original transaction)", "insert_coin: %s" % got[:200], c.where(bi))
     rem = q.call_exprs(c, "CoinMapping::remove_coin")
-    legacy = {"h": [a for a in q.cmp_atoms(c) if a[1].startswith("Lt(^state.height.0, ")],
-              "m": [a for a in q.cmp_atoms(c) if a[1] in ("Eq(NetID::Mainnet{}, ^state.network)", "Eq(^state.network, NetID::Mainnet{})")],
-              "t": [a for a in q.cmp_atoms(c) if a[1] in ("Eq(NetID::Testnet{}, ^state.network)", "Eq(^state.network, NetID::Testnet{})")]}
+    legacy = {"h": [a for a in _cmp_atoms(c) if a[1].startswith("Lt(^state.height.0, ")],
+              "m": [a for a in _cmp_atoms(c) if a[1] in ("Eq(NetID::Mainnet{}, ^state.network)", "Eq(^state.network, NetID::Mainnet{})")],
+              "t": [a for a in _cmp_atoms(c) if a[1] in ("Eq(NetID::Testnet{}, ^state.network)", "Eq(^state.network, NetID::Testnet{})")]}
     r.check([a[1] for a in legacy["h"]] == ["Lt(^state.height.0, 978392)"], "legacy/height", "legacy deposit rule: height < 978392", "legacy height atoms %s" % [a[1] for a in legacy["h"]])
     for label, tbl in (("other-networks", {a[0]: 0 for a in legacy["m"] + legacy["t"]}), ("height>=978392", {a[0]: 0 for a in legacy["h"]})):
         f = force(c, tbl)
@@ -481,7 +499,12 @@ def r6_stage_order(ctx):
     rr = q.ret_assignments(b)
     s = sig(rr[0][2]) if rr else "?"
     want = "melmint::process_pegging(melmint::process_withdrawals(melmint::process_deposits(melmint::process_swaps(melmint::create_builtins($1)))))"
-    r.check(s == want, "chain", "stages in order", "preseal_melmint returns %s" % s)
+    gone = [n for n in ("process_pegging", "process_withdrawals", "process_deposits", "process_swaps", "create_builtins") if ctx.prog.body(MM + n) is None]
+    if s != want and gone:
+        # a stage no longer exists under its name (renamed / turned into a method / merged): the chain cannot be read off the names
+        r.undecided("chain", "stage function(s) %s not found under their names; preseal_melmint returns %s: order not decided" % (gone, s[:200]))
+    else:
+        r.check(s == want, "chain", "stages in order", "preseal_melmint returns %s" % s)
     e = ctx.body(MM + "extract_pool_keys_sorted", r)
     cl = ctx.prog.all_nested(e)        # the sort/dedup may sit in a closure (`.pipe(|mut v| ..)`) or in the function itself
     srt = [c for c in cl if q.calls_matching(c, lambda n, p: n.split("::")[-1].startswith("sort"))]
